@@ -222,6 +222,20 @@ class FunctionVC:
             mine = [e for c, es in by_cls.items() if issubclass(c, exc_cls) and not issubclass(c, (UnwindLimit, ContractPre, TypeErr)) for e in es]
             actual = Or_(*[And_(*e.pcl[k0:]) for e in mine])
             t, sub, defs = self.eval_clause(clause, ctx0, bindings)
+            if getattr(ccls, 'raises_split', False):
+                # the body contains havoc (loop invariants, callee contracts): `raises iff cond` is stated as two implications whose
+                # hypotheses carry the assumed facts -- every raising path implies cond, every normal path implies not cond
+                ename = exc_cls.__name__
+                for i, e in enumerate(mine):
+                    self.add(Obligation(self.oid(f'raises-{ename}-only-if-{clause}' + (f'#{i}' if i else '')), 'raises', And_(*e.pcl, *defs), t,
+                                        self.prop, meta={'clause': C.clause_source_name(ccls, clause), 'exception': ename, 'path': 'raise',
+                                                         'origin': e.value.origin}))
+                if not ctx.dead:
+                    self.add(Obligation(self.oid(f'returns-only-if-not-{clause}'), 'raises', And_(ctx.pc, *defs), Not_(t), self.prop,
+                                        meta={'clause': C.clause_source_name(ccls, clause), 'exception': ename, 'path': 'normal'}))
+                if mine and getattr(ccls, 'cover_raises', True):
+                    self.add(Obligation(self.oid(f'cover-raises-{ename}'), 'cover', Or_(*[And_(*e.pcl) for e in mine]), True, self.prop))
+                continue
             goal = zbool(actual) == zbool(t) if (is_sym(actual) or is_sym(t)) else (actual == t)
             ename = exc_cls.__name__ if isinstance(exc_cls, type) else '|'.join(c.__name__ for c in exc_cls)
             self.add(Obligation(self.oid(f'raises-{ename}-iff-{clause}'), 'raises', And_(hyp0, *defs),
